@@ -259,6 +259,8 @@ def run(ck, tier):
     ck.cov['pool_runs_fatal'] = sum(1 for r_ in all_res if r_['fatal'])
     ck.cov['caps_exercised'] = sorted({r_['cap'] for r_ in all_res})
     ck.sample({'scenario': scs[0], 'first_events': (all_res[0]['events'] or [])[:12]})
+    # ------------------------------------------------------------------ S: TLC behaviours forced onto the real goroutines
+    gate_part(ck, sd, tier, rng)
     # ------------------------------------------------------------------ G: shell routing and stdin bytes
     tool_input_part(ck, sd, rs, [rz, rz2], tier)
     ck.cov['distinct_nontrivial'] += ck.cov['pool_runs_fatal'] + ck.cov.get('shell_vectors', 0)
@@ -280,6 +282,100 @@ def run(ck, tier):
         ck.cov['binding_selftest'] = 'rejected' if ok else 'NOT rejected'
         if not ok:
             raise Inconclusive('binding self-test failed: a trace without its Release event was accepted')
+
+
+def read_behaviours(d):
+    """behaviours written by `tlc -simulate file=beh`: list of (cfg, [last, ...])"""
+    import tempfile
+    out = []
+    for fn in sorted(os.listdir(d)):
+        if not fn.startswith('beh_'):
+            continue
+        txt = ''.join(l for l in open(os.path.join(d, fn)) if not l.startswith('\\*') and not l.startswith('----') and not l.startswith('===='))
+        tmp = os.path.join(d, fn + '.flt')
+        open(tmp, 'w').write(txt)
+        states = list(tlaval.read_dump(tmp))
+        if len(states) < 2:
+            continue
+        out.append((states[0]['cfg'], [st['last'] for st in states[1:]]))
+    return out
+
+
+def gate_part(ck, sd, tier, rng):
+    n = 60 if tier == 'quick' else 600
+    r = vplib.run_tlc('ProcPoolSim', 'ProcPoolSim.cfg', workers=1, simulate='file=beh,num=%d' % n, depth=150,
+                      extra=['-seed', str(vplib.seed())], timeout=1200, name='sim')
+    behs = read_behaviours(r.dir)
+    if not behs:
+        raise Inconclusive('TLC wrote no behaviours')
+    scs, metas = [], {}
+    silent = {'callback', 'edone', 'egwait', 'end', 'init'}
+    for k, (cfg, lasts) in enumerate(behs):
+        out = {tuple(a): b for a, b in cfg['out']}
+        sid = 500000 + k
+        sc, meta = scenario_from_cfg(sid, cfg['seq'], out, rng)
+        for p in sc['plan'].values():
+            p['gated'] = True
+            p['delay_ms'] = 0
+        sc['hook_delay_us'] = 0
+        sc['single'] = False
+        sc['schedule'] = [{'ev': l[0], 'f': l[1][0], 'i': l[1][1]} for l in lasts if l[0] not in silent]
+        sc['cap'] = cfg['cap']
+        scs.append(sc)
+        metas[sid] = (sc, meta)
+    groups = {'0': [x for x in scs if x['cap'] == 1], '0,1': [x for x in scs if x['cap'] == 2]}
+    from concurrent.futures import ThreadPoolExecutor
+    with ThreadPoolExecutor(2) as ex:
+        futs = {cpus: ex.submit(run_scenarios, g, cpus, sd, 'gate' + cpus.replace(',', '_')) for cpus, g in groups.items() if g}
+    all_res = []
+    for cpus, fu in futs.items():
+        res, hang = fu.result()
+        all_res += res
+        if hang:
+            last = res[-1]
+            ck.violation('gate:hang', 'gated scenario %d did not return within 60 s' % last['id'],
+                         {'kind': 'pool', 'scenario': metas[last['id']][0], 'cpus': cpus})
+    lines, owner = [], []
+    stuck = []
+    followed = 0
+    for res in all_res:
+        if res.get('panic'):
+            if not res['panic'].startswith('HANG'):
+                ck.violation('gate:panic', 'panic in gated scenario %d: %s' % (res['id'], res['panic']), {'kind': 'pool', 'scenario': metas[res['id']][0]})
+            continue
+        if res['other']:
+            raise Inconclusive('unexpected diagnostics in a gated scenario: %r' % res['other'][:3])
+        sc, meta = metas[res['id']]
+        if res['cap'] != sc['cap']:
+            raise Inconclusive('taskset did not give the expected capacity: %s vs %s' % (res['cap'], sc['cap']))
+        if res.get('gate_stuck'):
+            stuck.append((res['id'], res['gate_stuck'], res.get('gate_granted')))
+        else:
+            followed += 1
+        for rec in trace_of(res, meta, sc):
+            lines.append(json.dumps(rec))
+            owner.append(res['id'])
+    t = vplib.run_tlc('ProcPoolTrace', 'ProcPoolTrace.cfg', workers=1, files={'trace.ndjson': '\n'.join(lines) + '\n'},
+                      timeout=3000, heap='4g', name='gatetrace')
+    ck.add_tlc('ProcPoolTrace: %d TLC behaviours (simulate, depth<=150) forced onto the real goroutines through the hook gate' % len(all_res), t)
+    by_id = {res['id']: res for res in all_res}
+    for run_id, l in parse_mism(t.out):
+        sc, meta = metas[run_id]
+        rec = json.loads(lines[l - 1])
+        ck.violation('gate:' + rec['ev'], 'execution %d forced along a TLC behaviour is not a behaviour of ProcPool.tla: rejected at %s'
+                     % (run_id, json.dumps(rec)), {'kind': 'pool', 'scenario': sc, 'event': rec, 'cap': by_id[run_id]['cap']})
+    ck.cov['gated_behaviours'] = len(all_res)
+    ck.cov['gated_behaviours_followed_to_the_end'] = followed
+    ck.cov['traces_validated_against_impl'] += len(all_res)
+    ck.cov['evaluations'] += len(all_res)
+    if stuck:
+        ck.note('scheduler gate: %d of %d TLC behaviours could not be followed by the real code to the end (model allows an order the '
+                'implementation does not take; not a violation), e.g. run %s stuck at %s after %s steps'
+                % (len(stuck), len(all_res), stuck[0][0], stuck[0][1], stuck[0][2]))
+        ck.cov['gated_behaviours_stuck'] = len(stuck)
+    if followed == 0:
+        raise Inconclusive('no TLC behaviour could be forced onto the real code: the gate does not bind')
+    ck.sample({'gated_schedule_prefix': scs[0]['schedule'][:14]})
 
 
 def tool_input_part(ck, sd, rs, rz, tier):
